@@ -2,7 +2,7 @@
 """tools/keep_mutant.py <Cxx> <a|b> <seeded-id> '<needs>' '<detected_by comma list or none>' '<notes>'"""
 import json, os, shutil, sys
 P, V, sid, needs, det, notes = sys.argv[1:7]
-src = "/tmp/mut_out/%s/%s" % (P, V)
+src = os.environ.get("MUT_ROOT", "/tmp/mut_out") + "/%s/%s" % (P, V)
 dst = "/verif/seeded/%s" % sid
 os.makedirs(dst, exist_ok=True)
 for f in ("patch.diff", "demo.py", "notes.md"):
